@@ -122,8 +122,7 @@ static char *h_version (int x, int maxlen, int *major, int *minor)
   char *s = &h_vbuf[x][5 - len];
   for (i = 0; i < a; i++)
     {
-      uint8_t d = __llsym_nondet_u8 ("d", x * 8 + i);
-      __llsym_assume (d >= '0' && d <= '9');
+      int d = '0' + __llsym_choice ("d", x * 8 + i, 10);
       s[i] = (char) d;
       M = M * 10 + (d - '0');
     }
@@ -132,8 +131,7 @@ static char *h_version (int x, int maxlen, int *major, int *minor)
       s[a] = '.';
       for (i = 0; i < b; i++)
         {
-          uint8_t d = __llsym_nondet_u8 ("d", x * 8 + a + 1 + i);
-          __llsym_assume (d >= '0' && d <= '9');
+          int d = '0' + __llsym_choice ("d", x * 8 + a + 1 + i, 10);
           s[a + 1 + i] = (char) d;
           m = m * 10 + (d - '0');
         }
